@@ -201,6 +201,8 @@ def run(tier):
     buffers_disjoint(chk)
     from . import c19
     c19.close_order(chk)
+    from .. import oblig as _ob2
+    _ob2.run_obligations(chk, c19.reneg_declined_obligations())
     # the I/O transition table (shared with C01): a dropped transition leaves the engine open with nothing on offer
     from .. import engio, oblig as _ob
     _ob.run_obligations(chk, engio.progress_obligations())
